@@ -130,7 +130,15 @@ fn check_dag_sel(ont: &Ontology, r: &RefOnt, ids: &[u32], term_to_term: bool) ->
                 ("Builtins::Distance", Builtins::Distance(InformationContentKind::Omim).calculate(&ta, &tb)),
                 ("HpoTerm::similarity_score(Distance)", ta.similarity_score(&tb, &Distance::new())),
             ] {
-                if (got - want_sim).abs() > 1e-6 {
+                // d + 1 is exact in f32 (d < 2^24) and one division is correctly rounded in f32 as in f64: every
+                // evaluation of 1/(d+1) lies within an ulp or two of want_sim, so the band is RELATIVE (an absolute
+                // 1e-6 would admit 1/(d+2) for d >= 999 and any rounding to six decimals); for terms without a
+                // common ancestor the value is 0 exactly (no formula is evaluated there)
+                let ok = match want {
+                    None => got == 0.0,
+                    Some(_) => (got - want_sim).abs() <= 2.0 * f32::EPSILON * want_sim,
+                };
+                if !ok {
                     return v(site, "Distance similarity is not 1/(d+1)", format!("{a},{b}: {got} expected {want_sim}"));
                 }
             }
